@@ -41,6 +41,10 @@ pub struct CbcCase {
     /// the fallback future needs this many ms (0 = resolves at once)
     #[serde(default)]
     pub fallback_ms: u64,
+    /// after the history a long time passes (index into 31 s / 1 h / 400 days) and one more
+    /// caller arrives: a breaker that is open with a longer (or unbounded) wait still rejects it
+    #[serde(default)]
+    pub late_probe: Option<u8>,
 }
 
 fn small_config() -> BoxedStrategy<CbConfig> {
@@ -130,10 +134,10 @@ fn case_strategy(tier: Tier) -> BoxedStrategy<CbcCase> {
         prop::collection::vec(caller, 2..=callers_hi),
         prop_oneof![3 => Just(None), 1 => gen::instant(200).prop_map(Some)],
         prop::collection::vec(any::<u8>(), 0..=48),
-        prop_oneof![3 => Just(0u64), 1 => 1u64..=25, 1 => Just(10u64)],
+        (prop_oneof![3 => Just(0u64), 1 => 1u64..=25, 1 => Just(10u64)], prop_oneof![2 => Just(None), 1 => (0u8..3).prop_map(Some)]),
     )
         .prop_map(
-            |(cfg, fallback, clones, callers, force_open_at, order, fallback_ms)| CbcCase {
+            |(cfg, fallback, clones, callers, force_open_at, order, (fallback_ms, late_probe))| CbcCase {
                 cfg,
                 fallback,
                 clones,
@@ -141,6 +145,7 @@ fn case_strategy(tier: Tier) -> BoxedStrategy<CbcCase> {
                 force_open_at,
                 order,
                 fallback_ms,
+                late_probe,
             },
         );
     // a large permitted_calls_in_half_open and more slow trial callers than that at once
@@ -191,6 +196,7 @@ fn case_strategy(tier: Tier) -> BoxedStrategy<CbcCase> {
             force_open_at: None,
             order,
             fallback_ms: 0,
+            late_probe: None,
         });
     prop_oneof![40 => general, 1 => crowd].boxed()
 }
@@ -443,6 +449,28 @@ async fn interp(case: &CbcCase) -> Verdict {
         }
     }
 
+    if let (Some(j), true) = (case.late_probe, v.c03.is_empty()) {
+        let jump = [31_000u64, 3_600_000, 400 * 86_400_000][j as usize % 3];
+        crate::vclock::advance_ms(jump - 1);
+        sim.begin_instant().await;
+        let req = Req {
+            id: n as u32,
+            key: 0,
+            tag: 0xC000 + n as u64,
+        };
+        let fut = clones[0].call(req);
+        let lg = log.clone();
+        let wrapped = async move {
+            lg.note("first_poll", n as i64, 0);
+            fut.await
+        };
+        let _ = sim.spawn_call(wrapped, map_outcome);
+        sim.settle().await;
+        for _ in 0..(12 + case.fallback_ms) {
+            sim.tick().await;
+        }
+    }
+
     // ------------------------------------------------------------ oracles over the history
     let snap = log.snapshot();
     let wait2 = if cfg.wait_huge > 0 { u64::MAX } else { 2 * cfg.wait_ms + 1 };
@@ -678,6 +706,9 @@ async fn interp(case: &CbcCase) -> Verdict {
     }
     if cfg.listeners {
         v.classes.push("event_listeners_registered");
+    }
+    if case.late_probe.is_some() {
+        v.classes.push("caller_after_a_long_quiet_time");
     }
     if cfg.wait_huge > 0 {
         v.classes.push("never_auto_recover_wait");
